@@ -175,6 +175,7 @@ type world struct {
 	rorder  [][2]int
 	cmds    map[uuid.UUID]*cmdInfo
 	nextID  int
+	gone    map[int]bool
 	fired   map[string]int
 }
 
@@ -190,7 +191,7 @@ func idOfName(name string) (int, bool) {
 
 func newWorld(n int) *world {
 	w := &world{ctx: kit.Context(), clk: clock.NewFakeClock(t0), cp: fake.NewCloudProvider(), recorder: test.NewEventRecorder(), n: n,
-		faults: map[string]*fault{}, repls: map[[2]int]*replInfo{}, cmds: map[uuid.UUID]*cmdInfo{}, fired: map[string]int{}}
+		faults: map[string]*fault{}, repls: map[[2]int]*replInfo{}, cmds: map[uuid.UUID]*cmdInfo{}, fired: map[string]int{}, gone: map[int]bool{}}
 	w.inner = newAPI()
 	w.c = interceptor.NewClient(w.inner, w.funcs())
 	w.it = fake.NewInstanceType("it-a", fake.WithResources(corev1.ResourceList{
@@ -756,6 +757,25 @@ func (w *world) exec(o *jOp) []effect {
 				w.cluster.DeleteNodeClaim(r.Name)
 			}
 		}
+	case "gone":
+		// the instance is reclaimed / the objects are finalized: Node and NodeClaim leave the API and the informers
+		// deliver both deletions to the cluster state
+		o.Ret = "EnvOk"
+		if !w.gone[o.Node] {
+			nc := &v1.NodeClaim{}
+			must(w.inner.Get(w.ctx, client.ObjectKey{Name: nodeName(o.Node)}, nc))
+			nc.Finalizers = nil
+			must(w.inner.Update(w.ctx, nc))
+			must(client.IgnoreNotFound(w.inner.Delete(w.ctx, nc)))
+			node := &corev1.Node{}
+			must(w.inner.Get(w.ctx, client.ObjectKey{Name: nodeName(o.Node)}, node))
+			node.Finalizers = nil
+			must(w.inner.Update(w.ctx, node))
+			must(client.IgnoreNotFound(w.inner.Delete(w.ctx, node)))
+			w.cluster.DeleteNodeClaim(nodeName(o.Node))
+			w.cluster.DeleteNode(nodeName(o.Node))
+			w.gone[o.Node] = true
+		}
 	case "deliver":
 		o.Ret = "EnvOk"
 		w.deliver()
@@ -787,7 +807,8 @@ func must(err error) {
 
 type nodeSnap struct {
 	Taint, Cond, Del, Mark, StDel, MView bool
-	Owner                               int // -1 none
+	Gone                                bool // Node and NodeClaim are gone from the API and from the cluster state
+	Owner                               int  // -1 none
 }
 
 type cmdSnap struct {
@@ -818,15 +839,20 @@ func (w *world) snapshot() snapshot {
 	var cmds []*disruption.Command
 	for id := 0; id < w.n; id++ {
 		node := &corev1.Node{}
-		must(w.inner.Get(w.ctx, client.ObjectKey{Name: nodeName(id)}, node))
+		errNode := w.inner.Get(w.ctx, client.ObjectKey{Name: nodeName(id)}, node)
 		nc := &v1.NodeClaim{}
-		must(w.inner.Get(w.ctx, client.ObjectKey{Name: nodeName(id)}, nc))
+		errClaim := w.inner.Get(w.ctx, client.ObjectKey{Name: nodeName(id)}, nc)
 		flag, cached := w.cluster.VerifC08MarkFlag(providerID(id))
 		mview, stdel, _ := w.cluster.VerifC08View(providerID(id))
-		if !cached {
-			panic("candidate node not in the cluster state")
+		if w.gone[id] {
+			// everything is read from the real API / Cluster; all of it must say "not there"
+			if !apierrors.IsNotFound(errNode) || !apierrors.IsNotFound(errClaim) || cached {
+				panic("a vanished node is still visible")
+			}
+		} else if errNode != nil || errClaim != nil || !cached {
+			panic("candidate node not in the API or not in the cluster state")
 		}
-		ns := nodeSnap{Taint: hasTaint(node), Cond: hasCond(nc), Del: !nc.DeletionTimestamp.IsZero(), Mark: flag, StDel: stdel, MView: mview, Owner: -1}
+		ns := nodeSnap{Taint: hasTaint(node), Cond: hasCond(nc), Del: !nc.DeletionTimestamp.IsZero(), Mark: flag, StDel: stdel, MView: mview, Gone: w.gone[id], Owner: -1}
 		if cmd, ok := w.queue.ProviderIDToCommand[providerID(id)]; ok {
 			ci := w.cmds[cmd.ID]
 			if ci == nil {
@@ -875,7 +901,7 @@ func (s snapshot) gallina() string {
 		if n.Owner >= 0 {
 			owner = fmt.Sprintf("(Some %s)", gnat(n.Owner))
 		}
-		return fmt.Sprintf("(mkNode %s %s %s %s %s, %s, %s)", kit.GBool(n.Taint), kit.GBool(n.Cond), kit.GBool(n.Del), kit.GBool(n.Mark), kit.GBool(n.StDel), kit.GBool(n.MView), owner)
+		return fmt.Sprintf("(mkNode %s %s %s %s %s %s, %s, %s)", kit.GBool(n.Taint), kit.GBool(n.Cond), kit.GBool(n.Del), kit.GBool(n.Mark), kit.GBool(n.StDel), kit.GBool(n.Gone), kit.GBool(n.MView), owner)
 	})
 	cmds := kit.GListOf(s.Cmds, func(c cmdSnap) string {
 		return fmt.Sprintf("mkCmd %s %s %s %s %s", gnat(c.ID), kit.GListOf(c.Cands, gnat), kit.GListOf(c.Latched, kit.GBool), kit.GListOf(c.Deleted, kit.GBool), kit.GZ(c.Created))
